@@ -100,9 +100,12 @@ func DecodeChained(r io.Reader, opts ...DecodeOption) ([]*File, error) {
 		}
 		err := d.decode(r, false, false, false)
 		if err != nil {
-			if i != 0 && errors.Is(err, errReadSize) {
+			if i != 0 && d.h.Size == 0 && errors.Is(err, errReadSize) {
 				// Not first file, and clean end of input before
 				// the first header byte: EOF, no more data.
+				// (The header size check keeps a read error from
+				// further inside the file that happens to wrap
+				// errReadSize from ending the chain.)
 				return fitFiles, nil
 			}
 			if d.file != nil {
